@@ -7,6 +7,11 @@ use std::collections::HashMap;
 use std::fmt;
 use std::sync::Mutex;
 
+thread_local! {
+    /// serialize sequences and mappings without a length hint (as `collect_seq` over a filtering iterator does)
+    pub static UNKNOWN_LEN: std::cell::Cell<bool> = const { std::cell::Cell::new(false) };
+}
+
 pub fn intern(s: &str) -> &'static str {
     static POOL: Mutex<Option<HashMap<String, &'static str>>> = Mutex::new(None);
     let mut g = POOL.lock().unwrap();
@@ -229,7 +234,7 @@ impl Serialize for Dyn {
             Dyn::None => s.serialize_none(),
             Dyn::Some(x) => s.serialize_some(&**x),
             Dyn::Seq(v) => {
-                let mut q = s.serialize_seq(Some(v.len()))?;
+                let mut q = s.serialize_seq(if UNKNOWN_LEN.with(|c| c.get()) { None } else { Some(v.len()) })?;
                 for x in v {
                     q.serialize_element(x)?;
                 }
@@ -252,7 +257,7 @@ impl Serialize for Dyn {
             Dyn::NewtypeStruct(n, x) => s.serialize_newtype_struct(intern(n), &**x),
             Dyn::UnitStruct(n) => s.serialize_unit_struct(intern(n)),
             Dyn::Map(v) => {
-                let mut m = s.serialize_map(Some(v.len()))?;
+                let mut m = s.serialize_map(if UNKNOWN_LEN.with(|c| c.get()) { None } else { Some(v.len()) })?;
                 for (k, x) in v {
                     m.serialize_entry(k, x)?;
                 }
